@@ -12,12 +12,15 @@
     name_resolution_order attr_falls_back_to_item item_falls_back_to_attr attr_error_of_class_propagates
     constants_not_looked_up link_consistent pipeline_faithful expression_semantics xform_invertible
     lex_expression_boundaries lex_dollar_escape lex_name_reference
+    lookup_attr_prefers_attribute lookup_item_prefers_item lookup_attr_fallback_only_on_failure
+    lookup_item_fallback_only_on_failure both_attribute_and_item
 -/
 import Genshi.Lemmas.PyEval
 import Genshi.Lemmas.PyXformWF
 import Genshi.Lemmas.PyUnxf
 import Genshi.Lemmas.PyLex
 import Genshi.Props.C13
+import Genshi.Model.PyLookupObj
 namespace Genshi.Props.C03
 open Genshi.Py
 
@@ -113,6 +116,65 @@ theorem attr_error_of_class_propagates (obj : V) (key : Str) (e : E) (h1 : σ.ge
     (h2 : w.isAttributeError e = true) (h3 : w.classHasAttr obj key = true) :
     lookupAttr σ w obj key = .error e := by
   simp [lookupAttr, h1, h2, h3]
+
+/-! ### priority: Python's own meaning wins, the fall-back is used only when the primary access fails -/
+
+/-- `obj.key` where the attribute exists is that attribute — whatever `obj[key]` would give
+    (`{'keys': 1}.keys` is the method, not the item) -/
+theorem lookup_attr_prefers_attribute (obj : V) (key : Str) (v : V) (h : σ.getattr obj key = .ok v) :
+    lookupAttr σ w obj key = .ok v := by
+  simp [lookupAttr, h]
+
+/-- `obj[key]` where the item exists is that item — whatever `getattr(obj, key)` would give -/
+theorem lookup_item_prefers_item (obj k v : V) (h : σ.getitem obj k = .ok v) :
+    lookupItem σ w obj k = .ok v := by
+  simp [lookupItem, h]
+
+/-- `lookup_attr` differs from plain `getattr` only where `getattr` raised an `AttributeError` for
+    a name the class does not define -/
+theorem lookup_attr_fallback_only_on_failure (obj : V) (key : Str)
+    (h : lookupAttr σ w obj key ≠ σ.getattr obj key) :
+    ∃ e, σ.getattr obj key = .error e ∧ w.isAttributeError e = true ∧ w.classHasAttr obj key = false := by
+  unfold lookupAttr at h
+  cases hg : σ.getattr obj key with
+  | ok v => simp [hg] at h
+  | error e =>
+    refine ⟨e, rfl, ?_⟩
+    simp only [hg] at h
+    by_cases h1 : w.isAttributeError e = true
+    · by_cases h2 : w.classHasAttr obj key = true
+      · simp [h1, h2] at h
+      · exact ⟨h1, by simpa using h2⟩
+    · simp [h1] at h
+
+/-- `lookup_item` differs from plain item access only where that raised one of the four listed
+    exception classes and the key is a string -/
+theorem lookup_item_fallback_only_on_failure (obj k : V)
+    (h : lookupItem σ w obj k ≠ σ.getitem obj k) :
+    ∃ e s, σ.getitem obj k = .error e ∧ w.strOf k = some s ∧
+      (w.isAttributeError e || w.isKeyError e || w.isIndexError e || w.isTypeError e) = true := by
+  unfold lookupItem at h
+  cases hg : σ.getitem obj k with
+  | ok v => simp [hg] at h
+  | error e =>
+    simp only [hg] at h
+    by_cases h1 : (w.isAttributeError e || w.isKeyError e || w.isIndexError e || w.isTypeError e) = true
+    · cases hs : w.strOf k with
+      | none => simp [h1, hs] at h
+      | some s => exact ⟨e, s, rfl, rfl, h1⟩
+    · simp [h1] at h
+
+/-- non-vacuity, on a concrete object that has *both* an attribute `x` (value 1) and an item `'x'`
+    (value 2), and on a `dict`-like object whose key collides with a method of its class:
+    dot access gives the attribute / method, subscription gives the item -/
+theorem both_attribute_and_item :
+    Obj.attrOf true (.obj [(cs!"x", 1)] [] (some [(cs!"x", 2)])) cs!"x" = .ok (.val 1) ∧
+    Obj.itemOf true (.obj [(cs!"x", 1)] [] (some [(cs!"x", 2)])) (.str cs!"x") = .ok (.val 2) ∧
+    Obj.attrOf true (.obj [] [(cs!"keys", some 900)] (some [(cs!"keys", 7)])) cs!"keys" = .ok (.val 900) ∧
+    Obj.itemOf true (.obj [] [(cs!"keys", some 900)] (some [(cs!"keys", 7)])) (.str cs!"keys") = .ok (.val 7) ∧
+    Obj.attrOf true (.obj [] [] (some [(cs!"k", 7)])) cs!"k" = .ok (.val 7) ∧
+    Obj.itemOf true (.obj [(cs!"k", 3)] [] none) (.str cs!"k") = .ok (.val 3) :=
+  ⟨rfl, rfl, rfl, rfl, rfl, rfl⟩
 
 /-- **Known finding C03-constant-names (witness).**  `NotImplemented` and `Ellipsis` are not
     rewritten into a context lookup (every other free name is), so a context variable of that
